@@ -624,6 +624,7 @@ func c09Fixed(cfg Config, res *Result) {
 func suiteC09(cfg Config, res *Result) {
 	defer c09Fixed(cfg, res)
 	defer c09Complement(res)
+	defer recursiveMacroNodes(res, "reference", "c09-recursive-ifchanged", "ifchanged")
 	defer c09Debug(res)
 	res.Rule = "generated nestings (depth <= 4) of if/elif/else, ifequal, ifnotequal, firstof, for (+empty, reversed, sorted, key/value over maps), cycle and ifchanged over lists of length 0..6, strings incl. multi-byte, maps (single key, or sorted), nil; every forloop field incl. Parentloop at every depth can be printed; each rendered with a freshly compiled template and compared with a reference interpreter of the generated tree (for = map over the ordered items, forloop = function of (i, n, parent)) and with the Lean model; non-trivial = tree containing a for; distinct by (tree, context)"
 	n := 5000
